@@ -219,7 +219,7 @@ Heavy(f, this, as) ==
 
 -----------------------------------------------------------------------------
 (* Entry routes and the this value they pass (11.2.3, 15.3.4.3-5, the Go API)  *)
-ScriptRoutes == <<"call", "apply", "bind", "evalcall", "method">>
+ScriptRoutes == <<"call", "apply", "bind", "evalcall", "method", "newbind">>
 GoRoutes == <<"valuecall", "ottocall", "objectcall">>
 ThisRoutes == ScriptRoutes \o GoRoutes       \* routes with a receiver
 NoThisRoutes == <<"direct", "new", "ottocall0">>
@@ -231,7 +231,7 @@ RouteOK(route, recv) ==
       [] OTHER -> TRUE
 
 ThisOf(route, recv) ==
-    CASE route \in {"direct", "new"} -> "undefined"
+    CASE route \in {"direct", "new", "newbind"} -> "undefined"      \* newbind: new (F.bind(recv, args))(): 15.3.4.5.2 ignores the bound this
       [] route = "ottocall0" -> "owner"           \* Otto.Call(path, nil): the call expression `path()`; this = base object (11.2.3 step 6)
       [] route \in {"call", "evalcall"} /\ recv = "undefined" /\ D("D09_call_undefined_this_global") -> "global"
       [] route = "apply" /\ recv = "undefined" /\ D("D02_apply_undefined_this_global") -> "global"
@@ -300,7 +300,7 @@ GoErr == "*errors.errorString"
 RtErr == "runtime.errorString"
 NumErr == "*strconv.NumError"
 
-FnDeviate(f, this, as, e) ==
+FnDeviate(f, route, this, as, e) ==
     LET a1 == Arg(as, 1)
         \* value.float64() has no case for a String value kept as []uint16 (String.fromCharCode results,
         \* strings with an unpaired surrogate): every ToNumber of such a string panics with a Go error
@@ -340,9 +340,12 @@ FnDeviate(f, this, as, e) ==
         \* RegExp.prototype itself has no compiled expression (C14 D14_regexp_prototype_exec_nil_panic)
         d10 == IF D("D02_regexp_prototype_exec_nil_panics") /\ f.p \in {"RegExp.prototype.exec", "RegExp.prototype.test"} /\ this = "owner"
                THEN Widen(d9, {RtErr}, FALSE, {}) ELSE d9
+        \* new on a bound built-in that is not a constructor calls the nil construct function of the target
+        d10b == IF D("D02_new_bound_nonconstructor_nil_panics") /\ route = "newbind" /\ f.p \notin Constructors
+                THEN Widen(d10, {RtErr}, FALSE, {}) ELSE d10
         \* Value.IsNaN converts outside catchPanic (C15 D15_isnan_panics_when_conversion_throws): any result object whose
         \* ToNumber throws
-        d11 == IF D("D02_value_isnan_exception_escapes") THEN Widen(d10, {}, FALSE, {<<"IsNaN", "*otto.exception">>}) ELSE d10
+        d11 == IF D("D02_value_isnan_exception_escapes") THEN Widen(d10b, {}, FALSE, {<<"IsNaN", "*otto.exception">>}) ELSE d10b
         \* Value.Export reads the properties outside catchPanic: a getter of the result that throws
         d12 == IF D("D02_value_export_exception_escapes") /\ Involves(this, as, "thrower")
                THEN Widen(d11, {}, FALSE, {<<"Export", "*otto.exception">>}) ELSE d11
@@ -372,12 +375,12 @@ RuleDeviate(f, this, as, e) ==
 (* the expectation of a case of the function family *)
 FnExpect(f, route, recv, as) ==
     LET this == ThisOf(route, recv)
-        strict == CASE route = "new" -> NewStrict(f, as)
+        strict == CASE route \in {"new", "newbind"} -> NewStrict(f, as)     \* 15.3.4.5.2 step 2: target without [[Construct]] => TypeError
                     [] route = "ottocall0" -> AnyReply                   \* this = the object that owns the function
                     [] this = "global" -> (IF RecvViolated(Receiver(f), "global") /\ Receiver(f).rule # "coercible"
                                            THEN RuleDeviate(f, "global", as, FnStrict(f, "global", as)) ELSE AnyReply)
                     [] OTHER -> RuleDeviate(f, this, as, FnStrict(f, this, as))
-    IN  FnDeviate(f, this, as, strict)
+    IN  FnDeviate(f, route, this, as, strict)
 
 (* under an open deviation that admits "resource" replies only one witness per function is run *)
 FnSlowSkip(f, route, recv, as) ==
@@ -452,7 +455,8 @@ AccCaseOK(acc, k, L) == (Cyclic(k) => L > 0) /\ (IsObjK(k) \/ acc \notin {"Objec
 (* Frames(form): the contexts entered per recursion level, outermost first.    *)
 RecForms == <<"direct", "mutual", "call", "apply", "bind", "forEach", "getter", "toString", "valueOf", "constructor",
               "evalDirect", "evalIndirect", "sortCompare", "replaceFn", "jsonToJSON">>
-UnboundedOnly == <<"cyclicJoin", "cyclicToString", "protoGetter", "setter", "callcall", "newBound">>
+UnboundedOnly == <<"cyclicJoin", "cyclicToString", "protoGetter", "setter", "callcall", "newBound",
+                   "jsonToJSONFresh", "jsonReplacerFresh", "jsonToJSONFreshArray">>
 Step(form) ==
     CASE form \in {"direct", "mutual", "bind", "getter", "toString", "valueOf", "constructor", "evalDirect"} -> <<"function">>
       [] form \in {"call", "apply", "forEach"} -> <<"native", "function">>
@@ -477,7 +481,12 @@ ASSUME \A form \in {RecForms[i] : i \in 1..Len(RecForms)}, d \in 1..6, L \in 0..
           Overflows(form, d, L, "raw") = ~PushAll(1, First(form) \o Rep(Step(form), d - 1), L)
 
 (* d = 0 stands for the unbounded variant of the form *)
+(* deviation: JSON.stringify walks the value natively; when toJSON / the replacer hands back a FRESH object that  *)
+(* leads to the same holder again, neither the cycle test (15.12.3 Str/JO step 1) nor the context limit ever fires *)
+RecNative(form) == form \in {"jsonToJSONFresh", "jsonReplacerFresh", "jsonToJSONFreshArray"}
 RecExpect(form, d, L, mode) ==
+    IF D("D02_json_stringify_fresh_object_unbounded_recursion") /\ RecNative(form)
+    THEN [reply |-> Exp(FALSE, {}, {}, FALSE, TRUE, {}), val |-> ""] ELSE
     LET over == IF d = 0 THEN L > 0 ELSE Overflows(form, d, L, mode)
     IN  CASE mode \in {"raw", "valuecall"} -> (IF over THEN [reply |-> OnlyError("RangeError"), val |-> ""] ELSE [reply |-> OnlyValue, val |-> "7"])
           \* the script catches the RangeError itself, sees an instance of RangeError and continues
@@ -567,4 +576,104 @@ Nestings == <<
 NestExpect(api, nest, rep) ==
     IF D("D02_duplicate_label_errors_superquadratic") /\ nest = "block_label" /\ rep >= 1000 /\ api \in {"Run", "Compile", "evalfn", "Function"}
     THEN Widen(AnyOrDiverge, {}, TRUE, {}) ELSE AnyReply
+
+-----------------------------------------------------------------------------
+(* Escape sequences in string literals (7.8.4) and identifiers (7.6).  A text  *)
+(* is quote + items + terminator; the items are escape sequences, complete or  *)
+(* truncated.  7.8.4: \u needs exactly four HexDigits, \x exactly two; a     *)
+(* backslash before the closing quote escapes it (the literal is then          *)
+(* unterminated); \ LineTerminator is a LineContinuation; \0 is legal.        *)
+(* An unpaired surrogate escape is a legal code unit.                          *)
+EscItem(n, b) == [n |-> n, b |-> b]
+EscItems == <<
+  EscItem("u0", <<92, 117>>), EscItem("u1", <<92, 117, 49>>), EscItem("u2", <<92, 117, 49, 50>>), EscItem("u3", <<92, 117, 49, 50, 51>>),
+  EscItem("uHi", <<92, 117, 68, 56, 51, 68>>), EscItem("uLo", <<92, 117, 68, 69, 48, 48>>), EscItem("uLo2", <<92, 117, 100, 99, 48, 48>>),
+  EscItem("uBmp", <<92, 117, 48, 48, 52, 49>>), EscItem("uFFFF", <<92, 117, 70, 70, 70, 70>>),
+  EscItem("x0", <<92, 120>>), EscItem("x1", <<92, 120, 52>>), EscItem("x2", <<92, 120, 52, 49>>),
+  EscItem("bs", <<92>>), EscItem("z", <<92, 48>>), EscItem("n", <<92, 110>>), EscItem("q", <<92, 34>>), EscItem("lc", <<92, 10>>),
+  EscItem("g", <<103>>), EscItem("uHiRaw", <<92, 117, 68, 56, 48, 48>>) >>
+EscTerms == <<"closed", "eof", "tail">>
+EscContexts == <<"dq", "sq", "ident", "regexp">>
+IsHexByte(c) == (c >= 48 /\ c <= 57) \/ (c >= 65 /\ c <= 70) \/ (c >= 97 /\ c <= 102)
+RECURSIVE StrScan(_, _, _)
+StrScan(bs, i, q) ==          \* bs: the text after the opening quote.  "ok": a well-formed literal, then nothing or ";1";
+                              \* "bad": a malformed or unterminated literal; "unk": a well-formed literal followed by other text
+    IF i > Len(bs) THEN "bad"
+    ELSE LET c == bs[i] IN
+         IF c = q THEN (IF SubSeq(bs, i + 1, Len(bs)) \in {<<>>, <<59, 49>>} THEN "ok" ELSE "unk")
+         ELSE IF c = 10 THEN "bad"
+         ELSE IF c # 92 THEN StrScan(bs, i + 1, q)
+         ELSE IF i + 1 > Len(bs) THEN "bad"
+         ELSE LET n == bs[i + 1] IN
+              IF n = 117 THEN (IF i + 5 <= Len(bs) /\ \A k \in (i + 2)..(i + 5) : IsHexByte(bs[k]) THEN StrScan(bs, i + 6, q) ELSE "bad")
+              ELSE IF n = 120 THEN (IF i + 3 <= Len(bs) /\ \A k \in (i + 2)..(i + 3) : IsHexByte(bs[k]) THEN StrScan(bs, i + 4, q) ELSE "bad")
+              ELSE StrScan(bs, i + 2, q)
+EscBody(items) == LET RECURSIVE cat(_) cat(i) == IF i > Len(items) THEN <<>> ELSE EscItems[items[i]].b \o cat(i + 1) IN cat(1)
+EscText(ctx, items, term) ==
+    LET body == EscBody(items)
+        q == IF ctx = "sq" THEN <<39>> ELSE <<34>>
+        close == CASE term = "closed" -> q [] term = "eof" -> <<>> [] term = "tail" -> q \o <<59, 49>>
+    IN  CASE ctx \in {"dq", "sq"} -> q \o body \o close
+          [] ctx = "ident" -> <<118, 97, 114, 32, 103>> \o body \o <<32, 61, 32, 49, 59, 32, 55>>       \* var g<items> = 1; 7
+          [] ctx = "regexp" -> <<47, 103>> \o body \o <<47, 46, 116, 101, 115, 116, 40, 49, 41>>         \* /g<items>/.test(1)
+EscOK(ctx, items, term) ==
+    CASE ctx \in {"dq", "sq"} ->
+           LET q == IF ctx = "sq" THEN 39 ELSE 34
+               close == CASE term = "closed" -> <<q>> [] term = "eof" -> <<>> [] term = "tail" -> <<q, 59, 49>>
+           IN  StrScan(EscBody(items) \o close, 1, q)
+      \* 7.6: only \uXXXX denoting an IdentifierPart may appear in an identifier
+      [] ctx = "ident" -> (IF \A i \in 1..Len(items) : EscItems[items[i]].n \in {"uBmp", "g"} THEN "ok" ELSE "bad")
+      [] OTHER -> "unk"
+EscExpect(api, ctx, items, term) ==
+    CASE ctx = "regexp" \/ api \in {"JSON", "RegExp"} -> AnyReply
+      [] EscOK(ctx, items, term) = "ok" -> OnlyValue
+      [] EscOK(ctx, items, term) = "bad" -> OnlyError("SyntaxError")
+      [] OTHER -> AnyReply
+
+-----------------------------------------------------------------------------
+(* Histories of array-shape operations on one array a = [1,2,3,4] (15.4.5.1,  *)
+(* 15.4.4, 15.2.3.6-9 and the Go accessors).  What each step returns belongs  *)
+(* to C08; here every step must RETURN - a value or an error - whatever the   *)
+(* steps before it did, and the runtime must be usable afterwards.  The reply *)
+(* of a history is "value" when all steps returned.                           *)
+HistOps == <<"defNC1", "defNC3", "defNW1", "defAcc0", "seal", "freeze", "preventExt", "lenNW",
+             "len0", "len2", "len10", "lenDef0", "lenBad", "lenStr",
+             "push", "pop", "shift", "unshift", "splice1", "spliceIns", "reverse", "sort", "set1", "set5", "del1", "concat", "slice", "join",
+             "goExport", "goString", "goJSON", "goSetLen", "goSet7", "goKeys", "jsonStringify", "forIn">>
+HistExpect(ops) == OnlyValue
+
+-----------------------------------------------------------------------------
+(* Uncaught throw (12.13) of a value of every kind through every entry point: *)
+(* the API hands back an error (never a value, never a Go panic); entries     *)
+(* whose signature has no error result return.                                *)
+ThrowVals == <<"Object.prototype", "Function.prototype", "Array.prototype", "String.prototype", "Boolean.prototype",
+               "Number.prototype", "Date.prototype", "RegExp.prototype", "Error.prototype", "EvalError.prototype",
+               "RangeError.prototype", "ReferenceError.prototype", "SyntaxError.prototype", "TypeError.prototype",
+               "URIError.prototype", "Object", "Function", "Array", "String", "Boolean", "Number", "Date", "RegExp", "Error",
+               "TypeError", "RangeError", "Math", "JSON", "this", "console", "eval", "parseInt",
+               "new TypeError(1)", "Object.create(Error.prototype)", "Object.create(TypeError.prototype)", "new Error()", "selfThrower">>
+ThrowEntries == <<"Run", "Eval", "CompileRun", "evalfn", "Function", "ValueCall", "OttoCall", "OttoCallThis", "ObjectCall", "ObjectGet",
+                  "ObjectSet", "forEach", "sort", "replace", "toStringConv", "valueOfConv", "finally", "rethrow", "ValueString",
+                  "getterInJSON", "ctor", "nested">>
+(* deviation: the API boundary converts a thrown non-error value to text; when that conversion throws the same     *)
+(* value again (toString: function(){ throw o }) the conversion of the nested exception recurses without bound     *)
+SelfThrow(entry, val) ==
+    val = "selfThrower" \/ (val = "this" /\ entry \in {"ObjectCall", "ObjectGet", "ObjectSet", "toStringConv", "valueOfConv", "ValueString"})
+ThrowExpect(entry, val) ==
+    IF D("D02_catchpanic_rethrowing_tostring_unbounded_recursion") /\ SelfThrow(entry, val) THEN Exp(FALSE, {}, {}, FALSE, TRUE, {})
+    ELSE IF entry = "ValueString" THEN OnlyValue          \* Value.String() has no error result: the empty string
+    ELSE Exp(FALSE, {"*"}, {}, FALSE, FALSE, {})      \* an error, whatever its text
+
+-----------------------------------------------------------------------------
+(* Otto.Copy() of a runtime in any reachable state returns a runtime that     *)
+(* evaluates code (the equivalence of the copy belongs to C17).               *)
+CopySetups == <<"fresh", "argumentsParam", "argumentsObject", "deleteEval", "evalAssigned", "evalVar", "boundFunction", "accessors",
+                "builtinObjects", "bridged", "frozen", "cyclic", "deleteBuiltins", "builtinsAssigned", "closure", "withScope",
+                "thrownStored", "stackLimit", "regexpLastIndex", "dateNaN", "errorObjects", "nullProto", "getterOnGlobal",
+                "functionCtor", "deepProto", "evalAccessor", "deleteObjectProtoMembers", "arrayHoles", "catchClosure", "namedFunctionExpr">>
+CopyExpect(setup) ==
+    CASE D("D02_copy_arguments_parameter_nil_panics") /\ setup = "argumentsParam" -> Widen(OnlyValue, {RtErr}, FALSE, {})
+      [] D("D02_copy_eval_binding_type_assertion") /\ setup \in {"deleteEval", "evalAssigned", "evalAccessor"}
+            -> Widen(OnlyValue, {RtErr, "*runtime.TypeAssertionError"}, FALSE, {})
+      [] OTHER -> OnlyValue
 =============================================================================
